@@ -871,7 +871,7 @@ func (rp *replayer) runCase(c *Case) {
 		rp.recv[c.R] = true
 		rp.opRecv[c.Op+"/"+c.R] = true
 	}
-	if len(c.Args) == 2 {
+	if len(c.Args) == 2 && types[c.Args[0].T] != nil && types[c.Args[1].T] != nil {
 		rp.pairs[c.Args[0].T+"/"+c.Args[1].T] = true
 	}
 	switch c.G {
